@@ -481,7 +481,9 @@ def _replay(chk, ego, env, sd):
         _trace_violations(chk, bad)
         return chk.finish()
     stats = {"late": [], "procs": 0, "run": 0, "vals": 0, "suspects": []}
-    files = [(cases, rep.get("gomaxprocs", 4), rep.get("yield") or "%d:40" % (k + 1)) for k in range(8)]
+    rate = (rep.get("yield") or "1:40").split(":")[1]
+    files = [(cases, rep.get("gomaxprocs", 4), rep.get("yield") if k < 2 and rep.get("yield") else "%d:%s" % (k + 1, rate))
+             for k in range(8)]
     runs = _run_R(ego, env, sd, files, "rp", 900)
     _judge_R(chk, runs, stats)
     for c, procs, yld, o, rc, se, other, _first in stats["suspects"]:
@@ -508,6 +510,10 @@ def run():
         "flag, function) is kept once per process - the judgement is a function of these tuples",
         "channels with capacity 0 are not generated: Ego gives every channel at least one slot (documented), Go does not"]
     rng = random.Random(vf.SEED)
+    for pkg in ("symbols", "bytecode"):
+        if not os.path.exists(os.path.join(vf.REPO, "internal/language", pkg, "zz_verifhook_on.go")):
+            raise vf.NoVerdict("%s has no verif hooks in internal/language/%s: C08 is meant for a tree with the two 'verif hooks' "
+                               "commits of branch verif-C08 (yield injection, fork and table-access events)" % (vf.REPO, pkg))
     with vf.scratch() as sd:
         ov = vf.make_overlay(sd, [])
         env = vf.ego_env(sd)
